@@ -12,7 +12,9 @@ THEOREMS = {
     "C10": ["ShipVerif.Hub.C10_task_guard", "ShipVerif.Hub.C10_dial_only_registered", "ShipVerif.Hub.C10_no_dial_after_shutdown",
             "ShipVerif.Hub.C10_unregister_effect", "ShipVerif.Hub.C10_cancel_effect", "ShipVerif.Hub.C10_trust_sources", "ShipVerif.Hub.cs_names",
             "ShipVerif.Dial.C10_removed_stays_removed", "ShipVerif.Dial.dialCfg_is_fixed", "ShipVerif.Dial.dinv_run",
-            "ShipVerif.Dial.C10_pinned_dial_survives_removal", "ShipVerif.Dial.C10_recheck_without_exclusion"],
+            "ShipVerif.Dial.C10_pinned_dial_survives_removal", "ShipVerif.Dial.C10_recheck_without_exclusion",
+            "ShipVerif.Shut.C10_shutdown_final", "ShipVerif.Shut.C10_no_attempt_after_shutdown", "ShipVerif.Shut.C10_unguarded_attempt_after_shutdown", "ShipVerif.Shut.shutCfg_is_fixed", "ShipVerif.Shut.sinv_run",
+            "ShipVerif.Shut.C10_pinned_dial_survives_shutdown", "ShipVerif.Shut.C10_recheck_without_exclusion_shutdown"],
     "C15": ["ShipVerif.Hub.C15_op_invariant", "ShipVerif.Hub.C15_variant_invariant", "ShipVerif.Ski.normalize_variant",
             "ShipVerif.Ski.normalize_idem", "ShipVerif.Ski.normalize_canonical", "ShipVerif.Ski.ops_eq"],
     "C18": ["ShipVerif.Hub.C18_notifications_converge", "ShipVerif.Hub.C18_quiescent", "ShipVerif.Hub.C18_fifo", "ShipVerif.Hub.J_step", "ShipVerif.Hub.cs_names"],
@@ -20,7 +22,7 @@ THEOREMS = {
             "ShipVerif.Reg.C11_two_sections_drop_newer"],
     "C01": ["ShipVerif.Hub.C10_trust_sources", "ShipVerif.Hub.C10_unregister_effect", "ShipVerif.Hub.C10_cancel_effect"],
 }
-IMPORTS = ["ShipVerif.Props.HubProps", "ShipVerif.Props.C15", "ShipVerif.Props.C11Reg", "ShipVerif.Props.C10Dial"]
+IMPORTS = ["ShipVerif.Props.HubProps", "ShipVerif.Props.C15", "ShipVerif.Props.C11Reg", "ShipVerif.Props.C10Dial", "ShipVerif.Props.C10Shut"]
 ENDED = {14, 15, 16, 17, 39}   # aborted or failed handshakes: the connection closes itself
 
 
@@ -286,7 +288,7 @@ def hub_part(R, pid, tier, seed):
     """runs proofs + engine for the hub half of `pid`; adds violations to R; returns a coverage dict"""
     obligations = THEOREMS[pid]
     changed, err = C.regen_facts()
-    p = C.lake_build(["ShipVerif.Props.HubProps", "ShipVerif.Props.C15", "ShipVerif.Props.C11Reg", "ShipVerif.Props.C10Dial", "shipdrv"])
+    p = C.lake_build(["ShipVerif.Props.HubProps", "ShipVerif.Props.C15", "ShipVerif.Props.C11Reg", "ShipVerif.Props.C10Dial", "ShipVerif.Props.C10Shut", "shipdrv"])
     lean_ok = p.returncode == 0 and not err
     aud = C.audit(pid + "hub", obligations, IMPORTS) if lean_ok else []
     forb = C.grep_forbidden()
